@@ -48,6 +48,7 @@ fn main() {
         "C12" => props::c12::run(&report, &tier),
         "C13" => props::c13::run(&report, &tier),
         "C19" => props::c19::run(&report, &tier),
+        "C14" => props::c14::run(&report, &tier),
         "C16" => props::c16::run(&report, &tier),
         "lab3" => {
             props::lab3();
